@@ -61,6 +61,34 @@ func execMAL(op string, a []sx) sx {
 		})
 		out.list = append(out.list, U(alloc))
 		return out
+	case "mal-soak":
+		// the same small record decoded many times, each bank closed at once: in the steady state nothing is allocated
+		b := build(a[0], a[1])
+		if b.err != nil {
+			return T("builderr")
+		}
+		data := a[2].bytes()
+		dst := newCell(b.typ)
+		r := avro.NewReadBuf(data)
+		round := func(n int) error {
+			for i := 0; i < n; i++ {
+				r.Reset(data)
+				if err := b.codec.Read(r, dst.ptr()); err != nil {
+					return err
+				}
+				r.ExtractResourceBank().Close()
+			}
+			return nil
+		}
+		if err := round(2000); err != nil { // warm-up: pool and arenas reach their size
+			return T("err")
+		}
+		var err error
+		alloc := allocDelta(func() { err = round(int(a[3].int())) })
+		if err != nil {
+			return T("err")
+		}
+		return T("ok", U(alloc))
 	case "mal-file":
 		data := a[1].bytes()
 		t := goTypeOf(a[0])
@@ -152,6 +180,24 @@ func genMAL(c *ctx) {
 				c.emit(T("mal-read", ty, sch, H(b), T("tag", A("array-count-overflows-length"))))
 			}
 		}
+	}
+	{
+		// steady-state allocation of repeated decoding
+		ty := T("struct", hs("H"), hs(""),
+			T("field", hs("A"), A("true"), hs("a"), hs(""), T("ptr", tInt(64))),
+			T("field", hs("B"), A("true"), hs("b"), hs(""), T("ptr", tString)),
+			T("field", hs("C"), A("true"), hs("c"), hs(""), T("map", tString, T("ptr", tInt(64)))))
+		sch := schemaSx(sRecord("soak",
+			avro.SchemaRecordField{Name: "a", Type: sPrim("long")}, avro.SchemaRecordField{Name: "b", Type: sPrim("string")},
+			avro.SchemaRecordField{Name: "c", Type: sMap(sPrim("long"))}))
+		var b []byte
+		b = append(b, refVarint(5)...)
+		b = append(append(b, refVarint(2)...), 'h', 'i')
+		b = append(b, refVarint(1)...)
+		b = append(append(b, refVarint(1)...), 'k')
+		b = append(b, refVarint(9)...)
+		b = append(b, refVarint(0)...)
+		c.emit(T("mal-soak", ty, sch, H(b), I(int64(c.scale(200000, 2000000)))))
 	}
 	bigBudget := c.scale(12, 200) // counts of 2^21: tens of megabytes each
 	fatalBudget := c.scale(0, 6)  // huge declared counts are fatal (out of memory) or loop for hours: only a few per run, isolated by ./check
